@@ -53,7 +53,7 @@ RULE = ("transparency / re-run: schedules of props/C09.gen_schedule (1/128 s tic
         "by (schedule key, masks, flags)")
 
 DEN = B.DEN
-FLOOR = 0.1           # bound on the eps-independent normalised disagreement (observed <= 0.01)
+FLOOR = 0.02          # bound on the eps-independent normalised disagreement (observed <= 2e-4)
 SLOPE = 0.7
 TABLES = ('trajectory', 'trajectory_sd', 'gyro', 'gyro_sd', 'accel', 'accel_sd')
 
